@@ -127,6 +127,11 @@ def verus_lane(pid, tier, cov, ledger, findings, assumptions):
     if not res.get('json_ok') and not diags:
         out['undecided'].append('verus produced no result (rc=%s): %s' % (res['rc'], res['raw_err'][-300:].replace('\n', ' ')))
         return out
+    if res['rc'] != 0 and not res.get('verified'):
+        # verus did not reach / complete verification (front-end rejection, internal error, timeout): nothing is discharged
+        out['undecided'].append('verus did not verify anything (rc=%s, verified=%s): %s' % (res['rc'], res.get('verified'),
+                                (vd.get('compile_errors') or [res.get('raw_err', '')[-200:].replace('\n', ' ')])[0]))
+        return out
     if vd.get('compile_errors'):
         out['undecided'].append('the woven file does not compile (nothing was verified): ' + vd['compile_errors'][0])
         return out
